@@ -59,9 +59,17 @@ Definition d_avalue (v : avalue) : str :=
 
 Definition d_avalues (l : list avalue) : str := flat_map d_avalue l.
 
+(** fn quote_att_value (07dd53f): a value holding both quotation marks is written between double
+    quotes with every double quote as &quot;; otherwise [escape] *)
+Definition s_quot : str := [38;113;117;111;116;59].
+Definition quote_att_value (v : str) : str :=
+  if existsb (N.eqb 34) v && existsb (N.eqb 39) v
+  then 34 :: flat_map (fun c => if N.eqb c 34 then s_quot else [c]) v ++ [34]
+  else escape v.
+
 (** Display for XmlAttribute *)
 Definition d_attr (a : attr) : str :=
-  d_name (xa_prefix a) (xa_local a) ++ 61 :: escape (d_avalues (xa_values a)).
+  d_name (xa_prefix a) (xa_local a) ++ 61 :: quote_att_value (d_avalues (xa_values a)).
 
 Definition d_pi (p : ppi) : str :=
   s_lt_q ++ pi_target p ++ match pi_value p with Some c => 32 :: c ++ s_q_gt | None => s_q_gt end.
